@@ -1,5 +1,9 @@
 """C14ng (sub-check of C14): pcapng writer/reader round trip and truncation prefix"""
+import os, sys
+sys.path.insert(0, os.path.dirname(os.path.dirname(os.path.abspath(__file__))))
+from go2v_hook import go2v_hook2
 CONF = {
+    'pre': [go2v_hook2],
     'interesting': ['option-pad-1', 'option-pad-2', 'option-pad-3', 'empty-string-option', 'multi-interface',
                     'cut-in-header', 'cut-in-data', 'cut-in-options', 'cut-at-boundary', 'big-endian', 'kept-across-reads'],
     'rule': 'Writer scripts (section info, 1-4 interfaces over 7 link types and 6 snap lengths, packets with data of every '
